@@ -25,8 +25,11 @@ static u16 am_data_store[0x10000]; static u16 am_prog_store[0x40000];
 #endif
 u16 MemoryInterface_DataRead(MemoryInterface *self, u16 address, bool bypass_mmio) { (void)self; (void)bypass_mmio; am_reads++; return AM_DATA(address); }
 void MemoryInterface_DataWrite(MemoryInterface *self, u16 address, u16 value, bool bypass_mmio) { (void)self; (void)bypass_mmio; am_writes++; AM_DATA(address) = value; }
-u16 MemoryInterface_ProgramRead(const MemoryInterface *self, u32 address) { (void)self; am_preads++; return AM_PROG(address); }
-void MemoryInterface_ProgramWrite(MemoryInterface *self, u32 address, u16 value) { (void)self; AM_PROG(address) = value; }
+#ifndef AM_PROG_CHECK
+#define AM_PROG_CHECK(address) ((void)0)     /* C18 turns the program-memory address into an obligation */
+#endif
+u16 MemoryInterface_ProgramRead(const MemoryInterface *self, u32 address) { (void)self; AM_PROG_CHECK(address); am_preads++; return AM_PROG(address); }
+void MemoryInterface_ProgramWrite(MemoryInterface *self, u32 address, u16 value) { (void)self; AM_PROG_CHECK(address); AM_PROG(address) = value; }
 /* spec-side readers (no counters) */
 static inline u16 am_peek(u16 a) { return AM_DATA(a); }
 static inline u16 am_ppeek(u32 a) { return AM_PROG(a); }
